@@ -4,6 +4,7 @@ package c15
 import (
 	"context"
 	"fmt"
+	"net"
 	"net/netip"
 	"strings"
 	"sync"
@@ -42,13 +43,16 @@ type Query struct {
 }
 
 type Case struct {
-	Chain    []string `json:"chain"`    // exec strings before the final forward
-	After    string   `json:"after"`    // optional exec after the forward that replaces the answer locally
-	UpOpt    *OptSpec `json:"up_opt"`   // OPT of the upstream reply (nil = none)
-	UpExt    bool     `json:"up_ext"`   // upstream sets an extended rcode (BADVERS-like 16) - only with client OPT
-	UpRecs   int      `json:"up_recs"`  // answer records (size drives UDP truncation)
-	Stale    bool     `json:"stale"`    // inject an expired-but-retained cache entry for query 0 first (needs lazy cache)
-	Queries  []Query  `json:"queries"`
+	Chain        []string `json:"chain"`          // exec strings before the final forward
+	After        string   `json:"after"`          // optional exec after the forward that replaces the answer locally
+	UpOpt        *OptSpec `json:"up_opt"`         // OPT of the upstream reply (nil = none)
+	UpExt        bool     `json:"up_ext"`         // upstream sets an extended rcode (BADVERS-like 16) - only with client OPT
+	UpRecs       int      `json:"up_recs"`        // answer records (size drives UDP truncation)
+	UpGlueBefore int      `json:"up_glue_before"` // additional records the upstream puts in front of its OPT
+	UpGlueAfter  int      `json:"up_glue_after"`  // ... and behind it (RFC 6891 does not fix the position of the OPT)
+	NoForward    bool     `json:"no_forward"`     // the chain ends without a forward: no response (REFUSED is synthesised) unless a local plugin answers
+	Stale        bool     `json:"stale"`          // inject an expired-but-retained cache entry for query 0 first (needs lazy cache)
+	Queries      []Query  `json:"queries"`
 }
 
 var chainPool = []string{"$cache", "$cachelazy", "ttl 5", "ttl 10-20", "$ecsF", "$ecsS", "ecs 198.51.100.77", "forward_edns0opt 10", "forward_edns0opt 8 12 65001", "forward_edns0opt 10 15"}
@@ -72,6 +76,11 @@ func genCase(t *rapid.T) Case {
 	if rapid.IntRange(0, 3).Draw(t, "upopt") != 0 {
 		c.UpOpt = genOpt(t, "up.")
 	}
+	if c.UpOpt != nil && rapid.IntRange(0, 2).Draw(t, "glue") == 0 {
+		c.UpGlueBefore = rapid.IntRange(0, 2).Draw(t, "glueBefore")
+		c.UpGlueAfter = rapid.IntRange(0, 2).Draw(t, "glueAfter")
+	}
+	c.NoForward = rapid.IntRange(0, 5).Draw(t, "noForward") == 0
 	c.UpExt = rapid.IntRange(0, 9).Draw(t, "upext") == 0
 	c.UpRecs = rapid.SampledFrom([]int{1, 1, 2, 8, 30}).Draw(t, "uprecs")
 	nq := rapid.IntRange(1, 3).Draw(t, "nq")
@@ -194,7 +203,16 @@ func runCase(c Case, ctx *hx.Ctx) *hx.Failure {
 			if c.UpExt {
 				r.Rcode = 16 // BADVERS: needs the OPT to carry the upper bits
 			}
+			glue := func(i int) dns.RR {
+				return &dns.A{Hdr: dns.RR_Header{Name: fmt.Sprintf("glue%d.c15.example.", i), Rrtype: dns.TypeA, Class: dns.ClassINET, Ttl: 300}, A: net.IPv4(192, 0, 2, byte(i+1))}
+			}
+			for i := 0; i < c.UpGlueBefore; i++ {
+				r.Extra = append(r.Extra, glue(i))
+			}
 			r.Extra = append(r.Extra, uo)
+			for i := 0; i < c.UpGlueAfter; i++ {
+				r.Extra = append(r.Extra, glue(10+i))
+			}
 		}
 		smu.Lock()
 		upTokens[tok] = uo
@@ -211,7 +229,9 @@ func runCase(c Case, ctx *hx.Ctx) *hx.Failure {
 			}
 		}
 	}
-	rules = append(rules, sequence.RuleArgs{Matches: []string{"!has_resp"}, Exec: "$fwd"})
+	if !c.NoForward {
+		rules = append(rules, sequence.RuleArgs{Matches: []string{"!has_resp"}, Exec: "$fwd"})
+	}
 	if c.After != "" {
 		after := c.After
 		if after == "$hostsA" {
